@@ -97,8 +97,10 @@ def long_history(rng):
              {"op": "add_interaction", "u": 1, "v": 2, "t": a + 5, "e": NoEnd},
              {"op": "add_interaction", "u": 2, "v": 1, "t": a + 7, "e": a + 30},
              {"op": "add_interaction", "u": 3, "v": 2, "t": a + 60, "e": a + 64}]
-    rng.shuffle(calls)
-    return calls
+    head, tail = calls[:3], calls[3:]      # the long runs first (a later-starting run of the same pair would reject them)
+    rng.shuffle(head)
+    rng.shuffle(tail)
+    return head + tail
 
 
 def many_runs_history(rng):
